@@ -503,6 +503,42 @@ fn seeds() -> Vec<(&'static str, Vec<Top>)> {
             ]),
         ],
     ));
+    // untyped helpers that build composites from their parameters before operating on them
+    v.push((
+        "seed:untyped-composite-helpers",
+        vec![
+            keep(),
+            top_fn("addt", vec![("a", None), ("b", None), ("c", None), ("d", None)], RetAnn::Implied, vec![Stmt::Expr(bin(BinOp::Add, Expr::Tuple(vec![var("a"), var("b")]), Expr::Tuple(vec![var("c"), var("d")])))]),
+            top_fn("lesst", vec![("a", None), ("b", None), ("c", None), ("d", None)], RetAnn::Implied, vec![Stmt::Expr(bin(BinOp::Lt, Expr::Tuple(vec![var("a"), var("b")]), Expr::Tuple(vec![var("c"), var("d")])))]),
+            top_fn("eql", vec![("a", None), ("b", None)], RetAnn::Implied, vec![Stmt::Expr(bin(BinOp::Eq, Expr::List(vec![var("a")]), Expr::List(vec![var("b")])))]),
+            top_fn("negt", vec![("a", None), ("b", None)], RetAnn::Implied, vec![Stmt::Expr(un(UnOp::Neg, Expr::Tuple(vec![var("a"), var("b")])))]),
+            start_fn(vec![
+                print_of(callv("addt", vec![int(1), int(2), int(3), int(4)])),
+                print_of(callv("addt", vec![s("a"), int(2), s("b"), int(4)])),
+                print_of(callv("lesst", vec![int(1), int(2), int(1), int(4)])),
+                print_of(callv("eql", vec![int(1), int(1)])),
+                print_of(callv("negt", vec![int(1), Expr::Float(2.5)])),
+            ]),
+        ],
+    ));
+    // a local defined from a call that takes a function literal and the outer variable of the same name
+    v.push((
+        "seed:definition-from-call-with-lambda-shadowing",
+        vec![
+            keep(),
+            top_fn("twice", vec![("f", Some(Ty::Fn(vec![Ty::Int], Box::new(Ty::Int)))), ("x", Some(Ty::Int))], RetAnn::Ty(Ty::Int), vec![Stmt::Expr(callv("f", vec![callv("f", vec![var("x")])]))]),
+            start_fn(vec![
+                def("y", int(5)),
+                Stmt::Block(vec![
+                    def("y", callv("twice", vec![lambda(vec![("a", Some(Ty::Int))], RetAnn::Ty(Ty::Int), vec![Stmt::Expr(bin(BinOp::Add, var("a"), int(1)))]), var("y")])),
+                    print_of(var("y")),
+                    def("z", call(Expr::Paren(Box::new(lambda(vec![("a", Some(Ty::Int))], RetAnn::Ty(Ty::Int), vec![Stmt::Expr(bin(BinOp::Add, var("a"), var("y")))]))), vec![var("y")])),
+                    print_of(var("z")),
+                ]),
+                print_of(var("y")),
+            ]),
+        ],
+    ));
     // value of an if/case used afterwards
     v.push((
         "seed:branch-values",
